@@ -354,6 +354,33 @@ pub fn run<T: FftNum>(ps: &ProgSpec, src: Src<T>, facts: &mut Facts) -> Vec<Quer
             }
             qs
         }
+        // third-party element type: SIMD planners must decline, the automatic planner must fall back
+        // to portable code that is exactly the DFT
+        "c14" => {
+            let (n, dir) = (ps.usize("n"), ps.dir());
+            let is_float = std::any::TypeId::of::<T>() == std::any::TypeId::of::<f32>() || std::any::TypeId::of::<T>() == std::any::TypeId::of::<f64>();
+            if !is_float {
+                if rustfft::FftPlannerAvx::<T>::new().is_ok() {
+                    facts.notes.push("NATIVE-FAIL FftPlannerAvx::<T>::new() returned Ok for an element type that is neither f32 nor f64".into());
+                }
+                if rustfft::FftPlannerSse::<T>::new().is_ok() {
+                    facts.notes.push("NATIVE-FAIL FftPlannerSse::<T>::new() returned Ok for an element type that is neither f32 nor f64".into());
+                }
+                if rustfft::FftPlannerNeon::<T>::new().is_ok() || rustfft::FftPlannerWasmSimd::<T>::new().is_ok() {
+                    facts.notes.push("NATIVE-FAIL a Neon/WasmSimd planner constructed on x86_64".into());
+                }
+                facts.notes.push(format!("SIMD planners declined for element type {} (size {} bytes)", std::any::type_name::<T>(), std::mem::size_of::<T>()));
+            }
+            let fft = plan::<T>("auto", n, dir, facts);
+            facts.functions.push(format!("FftPlanner::<{}>::plan_fft({}, {:?})", std::any::type_name::<T>(), n, dir));
+            let x = buf(src, "x", n);
+            let mut qs = vec![];
+            for e in Entry::ALL {
+                let r = call(&*fft, e, &x, 0, src);
+                qs.push(Query { name: format!("{}", e.name()), goals: dft_goals(&r.out, n, dir, (n > 0) as usize) });
+            }
+            qs
+        }
         "c12" => crate::tree::run_tree(ps, src, facts),
         k => panic!("unknown program kind {}", k),
     }
